@@ -655,3 +655,109 @@ impl VLink {
 }
 
 pub use crate::link::state::LinkState as VLinkState;
+
+/* --------------------------- receiver credit top-up ------------------------- */
+
+/// What a batch disposal on an auto-credit receiver put on the link's outgoing channel.
+#[derive(Debug, Clone, Copy, PartialEq, Eq)]
+pub struct VTopUp {
+    pub ok: bool,
+    /// flow frames re-issuing exactly `link-credit = n`
+    pub flows_with_full_credit: usize,
+    pub processed_after: u32,
+}
+
+/// A real `ReceiverInner` (attached receiver link, `Auto(n)`, `processed` preset) disposing a
+/// batch of `k` unsettled deliveries with `dispose_all` (`single = false`) or one with `dispose`.
+pub fn receiver_auto_credit_dispose(n: u32, processed_before: u32, k: u32, single: bool) -> VTopUp {
+    use crate::link::{
+        delivery::DeliveryInfo,
+        receiver::{CreditMode, ReceiverInner},
+        LinkFrame, ReceiverLink,
+    };
+    use fe2o3_amqp_types::{
+        definitions::DeliveryTag,
+        messaging::{Accepted, DeliveryState, Target},
+    };
+    use std::sync::atomic::{AtomicU32, Ordering};
+
+    let flow = Arc::new(LinkFlowState::receiver(inner(VFlowInner {
+        initial_delivery_count: 0,
+        delivery_count: 0,
+        link_credit: 0,
+        available: 0,
+        drain: false,
+    })));
+    let mut unsettled = crate::link::UnsettledMap::default();
+    for i in 0..k {
+        unsettled.insert(DeliveryTag::from(vec![i as u8, (i >> 8) as u8]), None);
+    }
+    let link: ReceiverLink<Target> = crate::link::Link {
+        role: std::marker::PhantomData,
+        local_state: crate::link::state::LinkState::Attached,
+        name: String::new(),
+        output_handle: Some(OutputHandle(0)),
+        input_handle: Some(InputHandle(0)),
+        snd_settle_mode: Default::default(),
+        rcv_settle_mode: Default::default(),
+        source: None,
+        target: None,
+        max_message_size: 0,
+        offered_capabilities: None,
+        desired_capabilities: None,
+        flow_state: flow,
+        unsettled: Arc::new(parking_lot::RwLock::new(Some(unsettled))),
+        session_stop_reason: Arc::new(OnceLock::new()),
+        verify_incoming_source: false,
+        verify_incoming_target: false,
+    };
+    let (session_tx, _session_rx) = mpsc::channel(8);
+    let (outgoing, mut outgoing_rx) = mpsc::channel::<LinkFrame>(1024);
+    let (_incoming_tx, incoming) = mpsc::channel::<LinkFrame>(8);
+    let processed = Arc::new(AtomicU32::new(processed_before));
+    let recv = ReceiverInner {
+        link,
+        buffer_size: 16,
+        credit_mode: CreditMode::Auto(n),
+        processed: processed.clone(),
+        auto_accept: false,
+        session: session_tx,
+        outgoing,
+        incoming,
+        incomplete_transfer: None,
+    };
+    let infos: Vec<DeliveryInfo> = (0..k)
+        .map(|i| DeliveryInfo {
+            delivery_id: i,
+            delivery_tag: DeliveryTag::from(vec![i as u8, (i >> 8) as u8]),
+            rcv_settle_mode: None,
+            _sealed: crate::util::Sealed {},
+        })
+        .collect();
+    let state = DeliveryState::Accepted(Accepted {});
+    let ok = {
+        let r = if single {
+            let mut fut = Box::pin(recv.dispose(infos.into_iter().next().unwrap(), None, state));
+            poll_once(fut.as_mut())
+        } else {
+            let mut fut = Box::pin(recv.dispose_all(infos, None, state));
+            poll_once(fut.as_mut())
+        };
+        matches!(r, std::task::Poll::Ready(Ok(())))
+    };
+    let mut flows = 0;
+    while let Ok(f) = outgoing_rx.try_recv() {
+        if let LinkFrame::Flow(f) = f {
+            if f.link_credit == Some(n) {
+                flows += 1;
+            }
+        }
+    }
+    let out = VTopUp {
+        ok,
+        flows_with_full_credit: flows,
+        processed_after: processed.load(Ordering::Acquire),
+    };
+    std::mem::forget(recv); // its Drop would send a detach
+    out
+}
